@@ -66,7 +66,27 @@ def metadata_of(project_dir):
     return text[i:]
 
 
+_LOCK = None
+
+
+def lock():
+    """One replay at a time per sandbox (the crate directory is shared); released when the process exits or unlock()."""
+    global _LOCK
+    import fcntl
+    os.makedirs(CACHE, exist_ok=True)
+    if _LOCK is None:
+        _LOCK = open(os.path.join(CACHE, "replay.lock"), "w")
+    fcntl.flock(_LOCK, fcntl.LOCK_EX)
+
+
+def unlock():
+    import fcntl
+    if _LOCK is not None:
+        fcntl.flock(_LOCK, fcntl.LOCK_UN)
+
+
 def setup_crate(project_dir, body, router=False):
+    lock()
     os.makedirs(CRATE, exist_ok=True)
     os.makedirs(os.path.join(CRATE, "src"), exist_ok=True)
     cargo = open(os.path.join(TEMPLATE, "Cargo.toml.in")).read().replace("@METADATA@", metadata_of(project_dir))
@@ -128,7 +148,10 @@ def run_requests(project_dir, requests, timeout=900):
         lines.append('    println!("{}\\t{}", %d, hex(&%s.to_string()));' % (i, e))
     setup_crate(project_dir, "\n".join(lines))
     env = dict(os.environ, CARGO_NET_OFFLINE="true", CARGO_TARGET_DIR=TARGET)
-    p = subprocess.run(["cargo", "run", "--quiet"], cwd=CRATE, env=env, capture_output=True, text=True, timeout=timeout)
+    try:
+        p = subprocess.run(["cargo", "run", "--quiet"], cwd=CRATE, env=env, capture_output=True, text=True, timeout=timeout)
+    finally:
+        unlock()
     if p.returncode != 0:
         raise ReplayError("replay crate failed (rc=%d): %s" % (p.returncode, p.stderr[-3000:]))
     out = [None] * len(requests)
